@@ -285,6 +285,41 @@ def r30_cli_flow(ctx):
                       U(n.args[0]), "with the option as mere default (%s)" %
                       bad_default if bad_default else "unconditionally"),
                   P + ("C15",))
+    # ... and the command line must leave such an option empty when it is
+    # not given: an argparse default would make the fallback unreachable
+    env_params = set()
+    for n in walk_no_nested(init.node):
+        if isinstance(n, ast.Call) and U(n.func) in ("os.getenv",
+                                                     "os.environ.get"):
+            for a in ancestors(n):
+                if isinstance(a, ast.If):
+                    for w in re.findall(r"\w+", U(a.test)):
+                        if w in init.call_params:
+                            env_params.add(w)
+    ctor = [c for c in walk_no_nested(main.node) if isinstance(c, ast.Call)
+            and U(c.func).endswith("DateTimeOperator")]
+    if ctor and env_params:
+        b = ctx.bound_args(main, ctor[0])
+        for prm in sorted(env_params):
+            v = b.get(prm)
+            if not (isinstance(v, ast.Attribute) and isinstance(
+                    v.value, ast.Name)):
+                continue
+            dest = v.attr
+            spec = dests.get(dest)
+            if spec is None:
+                continue
+            dflt_ = spec[1].get("default")
+            rep.check(not dflt_, rule_env,
+                      ctx.fkey(pa, None, "no-default:" + dest), pa.loc(),
+                      "option %s has no default, so the operator's "
+                      "environment fallback for %s stays reachable" % (
+                          dest, prm),
+                      "option %s is given the default %r, so `%s` is never "
+                      "empty and the environment variable the operator "
+                      "falls back to when it is empty can no longer take "
+                      "effect from the command" % (dest, dflt_, prm),
+                      P + ("C15",))
     sm = oper.methods["set_calendar_mode"]
     rep.check("data.Calendar.set_mode" in ctx.res.callees(sm.qual), rule,
               ctx.fkey(sm, None, "reaches-set-mode"), sm.loc(),
@@ -294,8 +329,24 @@ def r30_cli_flow(ctx):
     utc = any(isinstance(n, ast.If) and U(n.test) == "self.utc_mode" and
               "(0, 0)" in U(n) for n in walk_no_nested(init.node))
     dp = oper.methods["date_parse"]
-    utc2 = any(isinstance(n, ast.If) and U(n.test) == "self.utc_mode" and
-               "to_utc()" in U(n) for n in walk_no_nested(dp.node))
+    # the conversion stands on every path to the returned pair: its
+    # statement is a preceding sibling of (an ancestor of) every such return
+    from ..flow import block_of
+    conv = [n for n in walk_no_nested(dp.node) if isinstance(n, ast.If) and
+            U(n.test) == "self.utc_mode" and "to_utc()" in U(n)]
+    rets2 = [n for n in walk_no_nested(dp.node) if isinstance(n, ast.Return)
+             and isinstance(n.value, ast.Tuple) and len(n.value.elts) == 2]
+    utc2 = bool(conv) and bool(rets2)
+    for r in rets2:
+        covered = False
+        for cv in conv:
+            _o, _f, blk = block_of(cv)
+            chain = [r] + list(ancestors(r))
+            for a in chain:
+                if blk is not None and a in blk and blk.index(cv) < \
+                        blk.index(a):
+                    covered = True
+        utc2 = utc2 and covered
     rep.check(utc and utc2, rule, ctx.fkey(init, None, "utc-mode"),
               init.loc(), "--utc assumes zone (0, 0) and converts results "
               "to UTC", "--utc no longer selects the assumed zone (0, 0) "
@@ -513,3 +564,132 @@ def r13d_year_kind(ctx):
 
 
 RULES = {"R30": r30_cli_flow, "R13d": r13d_year_kind}
+
+
+# ------------------------------------------------------------------- R51
+def r51_offsets_one_by_one(ctx):
+    """Offsets given on the command line are durations that may mix nominal
+    (month, year) and exact units; adding a point to a sum of durations is
+    not the same as adding the durations one after the other (days are
+    applied before months within one addition, and each month/year step is
+    clamped).  In the operator layer, durations parsed from offsets are
+    therefore applied to the point individually: no Duration is ever added
+    to (or accumulated into) another Duration there."""
+    rep = ctx.rep
+    rule = "R51.offsets-one-by-one"
+    P = ("C19",)
+    oper = ctx.model.cls("DateTimeOperator")
+    rep.need_anchor(rule, "operator methods")
+    bad = []
+    # value origin: what holds a parsed duration (or a list of them)
+    dur_methods = set()
+
+    def taint(f):
+        """-> ({names holding a duration}, {names holding a list of them},
+        is_dur(expr), is_list(expr))"""
+        durs, lists = set(), set()
+
+        def is_dur(e):
+            if isinstance(e, ast.Name):
+                return e.id in durs
+            if isinstance(e, ast.Call):
+                fn = U(e.func)
+                if fn.endswith("duration_parser.parse"):
+                    return True
+                if isinstance(e.func, ast.Attribute) and isinstance(
+                        e.func.value, ast.Name) and e.func.value.id == \
+                        f.self_name and e.func.attr in dur_methods:
+                    return True
+                return False
+            if isinstance(e, ast.Subscript):
+                return is_list(e.value) and not isinstance(e.slice, ast.Slice)
+            if isinstance(e, ast.BinOp):
+                return is_dur(e.left) or is_dur(e.right)
+            if isinstance(e, ast.UnaryOp):
+                return is_dur(e.operand)
+            if isinstance(e, ast.IfExp):
+                return is_dur(e.body) or is_dur(e.orelse)
+            return False
+
+        def is_list(e):
+            if isinstance(e, ast.Name):
+                return e.id in lists
+            if isinstance(e, (ast.ListComp, ast.GeneratorExp)):
+                bind(e)
+                return is_dur(e.elt)
+            if isinstance(e, (ast.List, ast.Tuple)):
+                return any(is_dur(x) for x in e.elts)
+            if isinstance(e, ast.Subscript) and isinstance(e.slice,
+                                                           ast.Slice):
+                return is_list(e.value)
+            if isinstance(e, ast.Call) and U(e.func) in ("list", "tuple",
+                                                          "iter") and e.args:
+                return is_list(e.args[0])
+            return False
+
+        def bind(comp):
+            for g in comp.generators:
+                if is_list(g.iter) and isinstance(g.target, ast.Name):
+                    durs.add(g.target.id)
+        for _ in range(4):
+            for n in walk_no_nested(f.node):
+                if isinstance(n, ast.Assign):
+                    for t in n.targets:
+                        if isinstance(t, ast.Name):
+                            if is_dur(n.value):
+                                durs.add(t.id)
+                            if is_list(n.value):
+                                lists.add(t.id)
+                elif isinstance(n, ast.For) and isinstance(
+                        n.target, ast.Name) and is_list(n.iter):
+                    durs.add(n.target.id)
+                elif isinstance(n, ast.AugAssign) and isinstance(
+                        n.target, ast.Name) and is_dur(n.value) and \
+                        isinstance(n.op, ast.Mult):
+                    durs.add(n.target.id)
+        return durs, lists, is_dur, is_list
+    for _ in range(3):
+        for name, f in oper.methods.items():
+            durs, lists, is_dur, is_list = taint(f)
+            if any(isinstance(n, ast.Return) and n.value is not None and
+                   is_dur(n.value) for n in walk_no_nested(f.node)):
+                dur_methods.add(name)
+    for name, f in sorted(oper.methods.items()):
+        rep.anchor(rule, "operator methods")
+        durs, lists, is_dur, is_list = taint(f)
+        for n in walk_no_nested(f.node):
+            pair = None
+            if isinstance(n, ast.BinOp) and isinstance(n.op, (ast.Add,
+                                                              ast.Sub)):
+                pair = (n.left, n.right)
+            elif isinstance(n, ast.AugAssign) and isinstance(
+                    n.op, (ast.Add, ast.Sub)):
+                pair = (n.target, n.value)
+            if pair is None:
+                continue
+            if is_dur(pair[0]) and is_dur(pair[1]):
+                bad.append((f, n))
+                continue
+            ts = []
+            for x in pair:
+                try:
+                    ts.append(set(ctx.types_in(f, x)))
+                except Exception:
+                    ts.append(set())
+            dur = {"Duration", "TimeZone"}
+            if ts[0] and ts[1] and ts[0] <= dur and ts[1] <= dur:
+                bad.append((f, n))
+    for f, n in bad:
+        rep.violation(rule, ctx.fkey(f, n, "duration-sum"), f.loc(n),
+                      "%s adds two durations (%s): offsets must be applied "
+                      "to the time point one after the other - a point plus "
+                      "a sum of durations differs from successive additions "
+                      "when month/year units meet days at a month end "
+                      "(2019-01-30 +P1M +P1D)" % (f.qual, U(n)[:60]), P)
+    if not bad:
+        rep.ok(rule, ctx.mkey("datetimeoper", "no-duration-sums"),
+               "datetimeoper.py", "no Duration is added to another Duration "
+               "in the operator layer (%d methods)" % len(oper.methods), P)
+
+
+RULES["R51"] = r51_offsets_one_by_one
